@@ -480,10 +480,10 @@ def _register_const(name, q, term):
         pass
 
 
-def _dom(c):
+def _dom(c, fact=False):
     e = _EngineRef.engine
     if e is not None:
-        e.domain(c)
+        e.domain(c, fact=fact)
 
 
 def _div(a, b):
@@ -501,7 +501,7 @@ def _exp(a):
     r = tm.uf("exp", a)
     if a.op == "c":
         _register_const("exp", a.val, r)
-    _dom(tm.lt(tm.const(0), r))  # a true fact about exp, helps path feasibility
+    _dom(tm.lt(tm.const(0), r), fact=True)  # a true fact about exp, helps path feasibility
     return r
 
 
@@ -546,7 +546,7 @@ def _sqrt(a):
     else:
         _dom(tm.le(tm.const(0), a))
     r = tm.uf("sqrt", a)
-    _dom(tm.le(tm.const(0), r))
+    _dom(tm.le(tm.const(0), r), fact=True)
     return r
 
 
